@@ -605,14 +605,31 @@ func c09L4s() []c09L4 {
 		{"scmp128", false, func(p *rtr.Pkt) { p.SetSCMP(128, 0, c09SCMPBody()) }},
 		{"scmp130", false, func(p *rtr.Pkt) { p.SetSCMP(130, 0, c09SCMPBody()) }},
 		{"scmp4", true, func(p *rtr.Pkt) { p.SetSCMP(4, 51, c09SCMPBody()) }},
+		{"scmp127.255", true, func(p *rtr.Pkt) { p.SetSCMP(127, 255, c09SCMPBody()) }},
+		{"scmp128.255", false, func(p *rtr.Pkt) { p.SetSCMP(128, 255, c09SCMPBody()) }},
 	}
 }
 
-func c09SCMPType(t int, bodyLen int) c09L4 {
-	return c09L4{fmt.Sprintf("scmp%d/%d", t, bodyLen), t < 128, func(p *rtr.Pkt) {
-		p.SetSCMP(uint8(t), 0, c09SCMPBody()[:bodyLen])
+func c09SCMPType(t int, bodyLen int) c09L4 { return c09SCMPTypeCode(t, 0, bodyLen) }
+
+// c09SCMPTypeCode: an SCMP message of any type AND code as the offender's upper layer. Whether it is an error message is
+// decided by the type alone (scmp.rst: types 0..127 are errors, 128..255 informational); the code has no say in it.
+func c09SCMPTypeCode(t, code int, bodyLen int) c09L4 {
+	name := fmt.Sprintf("scmp%d/%d", t, bodyLen)
+	if code != 0 {
+		name = fmt.Sprintf("scmp%d.%d/%d", t, code, bodyLen)
+	}
+	return c09L4{name, t < 128, func(p *rtr.Pkt) {
+		p.SetSCMP(uint8(t), uint8(code), c09SCMPBody()[:bodyLen])
 	}}
 }
+
+// The boundary of the SCMP type space (assigned and unassigned error types up to 127, informational types from 128)
+// that is crossed with the codes below: the error/informational classification must not depend on the code.
+var (
+	c09BoundaryTypes = []int{0, 1, 2, 4, 5, 6, 100, 126, 127, 128, 129, 130, 131, 200, 255}
+	c09BoundaryCodes = []int{0, 1, 255}
+)
 
 type c09Off struct {
 	key    string
@@ -632,6 +649,8 @@ type c09Off struct {
 	rtrHost []byte
 	// for the recorded (not judged) expectation about the reply's path state
 	expCurrHF int
+	// "type.code" of an SCMP offender of the type sweep (bookkeeping of replies per type/code)
+	tcKey string
 }
 
 // ---- the run ----
@@ -648,6 +667,7 @@ type c09Run struct {
 	maxSeen   atomic.Int64
 	sizes     sync.Map // total reply length -> true (only around the bound)
 	ptrSeen   sync.Map // "cause=ptr" for lenient pointers
+	tcReplies sync.Map // "type.code" of an SCMP offender (type sweep) -> replies generated
 }
 
 func (k *c09Run) count(m *sync.Map, key string) {
@@ -721,6 +741,9 @@ func (k *c09Run) check(rt *rtr.Router, o *c09Off) {
 		return
 	}
 	k.count(&k.replies, o.cause)
+	if o.tcKey != "" {
+		k.count(&k.tcReplies, o.tcKey)
+	}
 	// where it goes: back out of the link it came in on
 	inLink := rt.VerifLink(0)
 	if o.in.Kind != 0 {
@@ -992,6 +1015,12 @@ func (k *c09Run) checkAuth(o *c09Off, p *c09Parsed, out []byte) {
 	k.viol("auth-invalid", o, fmt.Sprintf("authenticator %x, recomputed %x", got, doc))
 }
 
+func c09Dump(m *sync.Map) map[string]int64 {
+	out := map[string]int64{}
+	m.Range(func(key, v any) bool { out[key.(string)] = v.(*atomic.Int64).Load(); return true })
+	return out
+}
+
 func c09AddrHost(tl uint8, b []byte) (addr.Host, bool) {
 	switch tl {
 	case 0:
@@ -1258,6 +1287,31 @@ func TestC09(t *testing.T) {
 										continue
 									}
 									if o, ok := k.build(e, c, cause, ext == 2, ext, c09SCMPType(typ, bl), false, j.auth, 0, "types"); ok {
+										o.tcKey = fmt.Sprintf("%d.0", typ)
+										run(o)
+									}
+								}
+							}
+						}
+						// the type boundary crossed with codes (code 0 is in the sweep above): well-formed and truncated bodies
+						for _, typ := range c09BoundaryTypes {
+							for _, code := range c09BoundaryCodes[1:] {
+								for _, bl := range []int{24, 4, 0} {
+									for _, ext := range []int{0, 3} {
+										if o, ok := k.build(e, c, cause, false, ext, c09SCMPTypeCode(typ, code, bl), false, j.auth, 0, "types"); ok {
+											o.tcKey = fmt.Sprintf("%d.%d", typ, code)
+											run(o)
+										}
+									}
+								}
+								// header cut after the code byte / inside the checksum
+								for n := 2; n < 4; n++ {
+									if o, ok := k.build(e, c, cause, false, 0, c09SCMPTypeCode(typ, code, 0), false, j.auth, 0, fmt.Sprintf("cut%d", n)); ok {
+										if len(o.raw) != o.lay.L4Off+4 || o.want.codes[0] == c09CodeInvalidPacketSize {
+											continue
+										}
+										o.raw = o.raw[:o.lay.L4Off+n]
+										binary.BigEndian.PutUint16(o.raw[6:], uint16(len(o.raw)-o.lay.HdrLen))
 										run(o)
 									}
 								}
@@ -1411,6 +1465,28 @@ func TestC09(t *testing.T) {
 			}
 			return true
 		})
+		// informational SCMP offenders are answered like any other packet, whatever their code
+		tcRep := c09Dump(&k.tcReplies)
+		var unanswered []string
+		for _, typ := range c09BoundaryTypes {
+			for _, code := range c09BoundaryCodes {
+				if tc := fmt.Sprintf("%d.%d", typ, code); typ >= 128 && tcRep[tc] == 0 {
+					unanswered = append(unanswered, tc)
+				}
+			}
+		}
+		if len(unanswered) > 0 && tcRep["128.0"]+tcRep["255.0"]+tcRep["200.0"] > 0 && !r.OutOfBudget() {
+			r.Violation("informational-scmp-offender-never-answered", map[string]any{"type.code": unanswered,
+				"observed": "no cause of the type sweep produced an SCMP error for these informational offenders, while other informational types/codes are answered"})
+		}
+		bt := map[string]int64{}
+		for _, typ := range c09BoundaryTypes {
+			for _, code := range c09BoundaryCodes {
+				tc := fmt.Sprintf("%d.%d", typ, code)
+				bt[tc] = tcRep[tc]
+			}
+		}
+		r.Extra["replies_per_boundary_scmp_type_code"] = bt
 		var sizes []int
 		k.sizes.Range(func(key, _ any) bool { sizes = append(sizes, key.(int)); return true })
 		sort.Ints(sizes)
